@@ -55,6 +55,7 @@ func cmdConc(args []string) {
 	seed := fs.Int64("seed", 1, "seed")
 	out := fs.String("out", "", "trace ndjson")
 	fullEvery := fs.Int("full-every", 10, "compute the digest of the whole shared state at every k-th end event")
+	phase := fs.String("phase", "both", "seq = only the sequential baseline (a fresh process), conc = only the concurrent phase, both")
 	fs.Parse(args)
 	var queries []string
 	f, err := os.Open(*corpus)
@@ -120,14 +121,22 @@ func cmdConc(args []string) {
 	w, closeFn := newRecorder(*out, false)
 	defer closeFn()
 	// sequential baseline
-	// one line maps every call to its sequential result (TLC reads it as a function from call ids)
-	seqmap := map[string]any{}
-	for _, c := range calls {
-		seqmap[c.id] = safely(c.fn)
+	// one line maps every call to its sequential result (TLC reads it as a function from call ids).  With -phase the
+	// baseline comes from a process of its own, so the concurrent phase starts on a package nothing has touched yet
+	// (no lazily filled table or cache is warmed by the baseline).
+	if *phase != "conc" {
+		s0 := sharedDigest()
+		seqmap := map[string]any{}
+		for _, c := range calls {
+			seqmap[c.id] = safely(c.fn)
+		}
+		w.write(map[string]any{"ev": "seqmap", "m": seqmap})
+		w.write(map[string]any{"ev": "shared0", "res": s0})
 	}
-	w.write(map[string]any{"ev": "seqmap", "m": seqmap})
-	s0 := sharedDigest()
-	w.write(map[string]any{"ev": "shared0", "res": s0})
+	if *phase == "seq" {
+		summary(map[string]any{"calls": len(calls), "shared_expressions": len(shared), "events": 0, "goroutines": 0})
+		return
+	}
 	// concurrent phase
 	type event struct {
 		Seq    int64  `json:"seq"`
